@@ -72,6 +72,16 @@ Theorem C19_uncompressed_label_any_schedule :
 Proof. intros blob H len payload etoc k ls os s0 d. exact (label_any_schedule H len payload etoc k ls os s0 d). Qed.
 Print Assumptions C19_uncompressed_label_any_schedule.
 
+(* Frame: a blob whose digest no conversion of the schedule commits — the SOURCE blobs in particular — keeps its label,
+   for every initial store and schedule. *)
+Theorem C19_other_labels_untouched :
+  forall (blob : Type) (H len : blob -> N) (payload : blob -> blob) (etoc : blob -> N * N)
+         (k : kind) (ls : list (@layer blob)) (os : list op) (s0 : st) (d x : N),
+    (forall b, ~ commits_to H len payload k ls os d b) ->
+    alookup (sstore s0) d = Some x -> alookup (sstore (exec H len payload etoc k ls s0 os)) d = Some x.
+Proof. intros blob H len payload etoc k ls os s0 d x. exact (label_frame H len payload etoc k ls os s0 d x). Qed.
+Print Assumptions C19_other_labels_untouched.
+
 (* TOC image, for EVERY schedule of one converter instance (parallel layers, retries, duplicates): it has exactly one
    entry per layer digest; every layer digest recorded by a successful conversion is mapped — through fetcher.go's lookup
    — to the TOC blob written by a conversion that produced a blob of that very digest; and it has no other entries. *)
